@@ -89,6 +89,15 @@ func (ex *Exec) sentinelErr(name string) Value {
 // OpaqueIface is the exported form of opaqueIface.
 func (ex *Exec) OpaqueIface(name string, t types.Type) Value { return ex.opaqueIface(name, t) }
 
+// ByteSlice builds a concrete []byte value (for read-only globals of dependencies).
+func (ex *Exec) ByteSlice(b []byte) Value {
+	out := make([]Value, len(b))
+	for i, x := range b {
+		out[i] = ex.ts.BVConst(uint64(x), 8)
+	}
+	return out
+}
+
 func (ex *Exec) opaqueIface(name string, t types.Type) Value {
 	if v, ok := ex.opaques[name]; ok {
 		return v
@@ -323,6 +332,30 @@ func (ex *Exec) symbolicFill(p *Value, t types.Type, label string) {
 	}
 }
 
+// sameScalars: conjunction of the equalities of every bool/integer/float/string leaf reachable by
+// value (the traversal of symbolicFill); pointers, slices, maps and interfaces are skipped.
+func (ex *Exec) sameScalars(a, b Value, t types.Type) *Term {
+	switch u := t.Underlying().(type) {
+	case *types.Basic:
+		return ex.eq(t, a, b)
+	case *types.Struct:
+		x, y := a.(Struct), b.(Struct)
+		acc := ex.ts.True()
+		for i := 0; i < u.NumFields(); i++ {
+			acc = ex.ts.And(acc, ex.sameScalars(x[i], y[i], u.Field(i).Type()))
+		}
+		return acc
+	case *types.Array:
+		x, y := a.(Array), b.(Array)
+		acc := ex.ts.True()
+		for i := range x {
+			acc = ex.ts.And(acc, ex.sameScalars(x[i], y[i], u.Elem()))
+		}
+		return acc
+	}
+	return ex.ts.True()
+}
+
 func qualifierName(p *types.Package) string { return p.Name() }
 
 // opaqueNodeType is the dynamic type of zzverif.Node values: a comparable struct holding one atom.
@@ -423,6 +456,14 @@ func BaseIntrinsics() map[string]IntrinsicFn {
 		ex.symbolicFill(p, mustDeref(itf.T), argStr(a[1]))
 		return nil
 	}
+	m[ZZ+".SameScalars"] = func(ex *Exec, fr *frame, a []Value) Value {
+		x, y := a[0].(Iface), a[1].(Iface)
+		px, py := x.V.(*Value), y.V.(*Value)
+		if px == nil || py == nil {
+			ex.crash("SameScalars: nil pointer")
+		}
+		return ex.sameScalars(*px, *py, mustDeref(x.T))
+	}
 	m[ZZ+".Unexported"] = func(ex *Exec, fr *frame, a []Value) Value {
 		itf := a[0].(Iface)
 		name := argStr(a[1])
@@ -451,6 +492,22 @@ func BaseIntrinsics() map[string]IntrinsicFn {
 			}
 		}
 		panic("Unexported: no field " + name + " in " + t.String())
+	}
+	m[ZZ+".FieldNames"] = func(ex *Exec, fr *frame, a []Value) Value {
+		itf := a[0].(Iface)
+		t := itf.T
+		if pt, ok := t.Underlying().(*types.Pointer); ok {
+			t = pt.Elem()
+		}
+		st, ok := t.Underlying().(*types.Struct)
+		if !ok {
+			panic("FieldNames: not a struct: " + t.String())
+		}
+		var names []string
+		for i := 0; i < st.NumFields(); i++ {
+			names = append(names, st.Field(i).Name())
+		}
+		return ex.ts.Str(strings.Join(names, ","))
 	}
 	m[ZZ+".TypeName"] = func(ex *Exec, fr *frame, a []Value) Value {
 		itf := a[0].(Iface)
